@@ -503,12 +503,26 @@ func (ev *evaluator) node(e *env, n *Node) {
 		ev.mark(evJoint)
 	case "call":
 		ev.mark(evBarrier)
-		if n.Callee == "param" {
+		simple := func(tag, text string) {
+			ev.atom(tagCanon(tag, nil), false, false)
+			if text != "" {
+				ev.atom(text, false, false)
+			}
+			ev.atom("\x00</"+tag+">\x01", false, false)
+		}
+		switch n.Callee {
+		case "param":
 			// the component parameter renders a marker and ignores children
-			ev.atom(tagCanon("i", nil), false, false)
-			ev.atom("comp", false, false)
-			ev.atom("\x00</i>\x01", false, false)
-		} else {
+			simple("i", "comp")
+		case "card":
+			simple("i", e.str(n.E))
+		case "box":
+			simple("b", e.str(n.E))
+		case "index0":
+			simple("em", "zero")
+		case "index1":
+			simple("em", "one")
+		default:
 			idx, _ := strconv.Atoi(strings.TrimPrefix(n.Callee, "sub"))
 			sub := &env{a: e.a, svars: map[string]string{}, ivars: map[string]int{}, trace: e.trace}
 			sub.a.S1 = e.str(n.E)
